@@ -26,7 +26,10 @@ from nlgen import Model, Rng
 PROP_MIN_THEOREMS = 53
 COMPOSE_MIN_THEOREMS = 11
 EXTRA_MODULES = [('MpVerif.C01.PropsCompose', 'MpVerif/C01/PropsCompose.lean', COMPOSE_MIN_THEOREMS),
-                 ('MpVerif.C01.PropsCtxGen', 'MpVerif/C01/PropsCtxGen.lean', 11)]
+                 ('MpVerif.C01.PropsCtxGen', 'MpVerif/C01/PropsCtxGen.lean', 11),
+                 ('MpVerif.C01.PropsObjective', 'MpVerif/C01/PropsObjective.lean', 9),
+                 # statement audit (round 4): non-vacuity instances only, no C01_ theorems of its own
+                 ('MpVerif.C01.PropsAudit', 'MpVerif/C01/PropsAudit.lean', 0)]
 
 # every type except cones / unary-encoding marker: natively accepted in run A
 BASE_ACCEPT = ['LinConRange', 'LinConLE', 'LinConEQ', 'LinConGE',
@@ -1075,10 +1078,16 @@ def validate_model(exe, stub, options, n_orig, quadobj=1):
             ueflags.add(e['data']['res'])
             uevars.add(e['data']['con']['body']['v'][0])
     skipped = 0
+    qroots = []
+    objarg = ''
     for e in r['log']:
         if e.get('ev') == 'obj':
-            if e.get('kind') == 'quad' and e['quad']['c']:
-                outside.append('quadratic-objective')
+            # objective clause (C01_compose_objective): sense, linear and quadratic terms of objective 0;
+            # the Lean validator decides ObjCovers (objGaps) on the recorded contexts
+            if int(e.get('i', 0)) == 0:
+                objarg = ' objsense=%s objlin=%s' % (e['sense'], lin_s(e['lin']))
+                if e.get('kind') == 'quad' and e['quad']['c']:
+                    objarg += ' objquad=%s' % quad_s(e['quad'])
             continue
         if e.get('ev') != 'con':
             continue
@@ -1110,7 +1119,12 @@ def validate_model(exe, stub, options, n_orig, quadobj=1):
                                                    or any(v in convaux for v in d['con']['body']['v'])):
             skipped += 1
         elif tn.startswith('QuadCon'):
-            outside.append('quadratic-root')
+            # quadratic root constraint: hypothesis QRootsCover of C01_compose_quadroots (decided by qrootGaps)
+            body = d['body']
+            if any(v in convaux for v in body['lin']['v'] + body['quad']['v1'] + body['quad']['v2']):
+                skipped += 1
+                continue
+            qroots.append('%s;%s;%s;%s' % (lin_s(body['lin']), quad_s(body['quad']), bs(nb(d['lb']), True), bs(nb(d['ub']), False)))
         else:
             outside.append('root-type:' + tn)
     defs.sort()
@@ -1123,15 +1137,25 @@ def validate_model(exe, stub, options, n_orig, quadobj=1):
                 roots.append('1*%d;1;inf' % res)
             elif ub is not None and ub <= 0:
                 roots.append('1*%d;-inf;0' % res)
-    line = 'validate n0=%d defs=%s roots=%s %s' % (n_orig, '|'.join(t for _, t in defs), '|'.join(roots), bnds_arg(vs))
+    qarg = (' qroots=' + '|'.join(qroots)) if qroots else ''
+    line = 'validate n0=%d defs=%s roots=%s%s%s %s' % (n_orig, '|'.join(t for _, t in defs), '|'.join(roots), objarg, qarg, bnds_arg(vs))
     ans = _val_driver().ask(line)
     if not ans.startswith('valid '):
         return {'status': 'driver-bad-op', 'line': line[:400], 'outside': outside}
-    t = ans.split(' ')
+    parts = ans.split(' | ')
+    t = parts[0].split(' ')
     wf = t[1] == 'wf=1'
     gaps = [g for g in t[3:] if g]
-    return {'status': 'ok', 'wf': wf, 'gaps': gaps, 'outside': sorted(set(outside)), 'ndefs': len(defs), 'nroots': len(roots),
-            'conversion_rows_skipped': skipped}
+    objgaps = qgaps = None
+    for part in parts[1:]:
+        toks = [g for g in part.split(' ') if g]
+        if toks and toks[0].startswith('objgaps='):
+            objgaps = toks[1:]
+        elif toks and toks[0].startswith('qgaps='):
+            qgaps = toks[1:]
+    # a gap at a quadratic root is a context gap like any other (C01_compose_quadroots)
+    return {'status': 'ok', 'wf': wf, 'gaps': gaps + (qgaps or []), 'objgaps': objgaps, 'nqroots': len(qroots),
+            'outside': sorted(set(outside)), 'ndefs': len(defs), 'nroots': len(roots), 'conversion_rows_skipped': skipped}
 
 
 def rec_exe(ck):
@@ -1186,7 +1210,7 @@ def run_gadgets(ck, n_cases=None, proof=True):
             failing = failing + fail2
         res['proof_ok'], res['failing'] = ok, failing
         if ck.tier == 'thorough' and ok:
-            badm = ck.leanchecker(['MpVerif.C01.Props', 'MpVerif.C01.PropsCompose', 'MpVerif.C01.PropsCtxGen'])
+            badm = ck.leanchecker(['MpVerif.C01.Props', 'MpVerif.C01.PropsCompose', 'MpVerif.C01.PropsCtxGen', 'MpVerif.C01.PropsObjective'])
             if badm:
                 res['proof_ok'] = False
                 res['failing'] += ['leanchecker rejected %s' % x for x in badm]
